@@ -377,6 +377,13 @@ var Faults = []Fault{
 			}
 		}
 		s.sel().Args = append(s.sel().Args, m.Arg{Name: bogus, Value: val(m.VInt, "1")})
+		if c.R.Chance(1, 4) {
+			// the same unknown name a second (and third) time on the same field: each occurrence is an unknown argument
+			for k := 0; k < 1+c.R.Intn(2); k++ {
+				at := c.R.Intn(len(s.sel().Args) + 1)
+				s.sel().Args = append(s.sel().Args[:at], append([]m.Arg{{Name: bogus, Value: val(m.VInt, "2")}}, s.sel().Args[at:]...)...)
+			}
+		}
 		return true
 	}},
 	{"unknown-directive-argument", "KnownArgumentNames", func(c *FCtx) bool {
